@@ -414,6 +414,14 @@ private:
         )
             return client::error::malformed_packet;
 
+        // Binary Data is prefixed with a two byte length
+        const auto& correlation_data = props[prop::correlation_data];
+        if (
+            correlation_data &&
+            !is_valid_string_size(correlation_data->size())
+        )
+            return client::error::malformed_packet;
+
         const auto& user_properties = props[prop::user_property];
         for (const auto& user_property: user_properties)
             if (!is_valid_string_pair(user_property))
